@@ -37,3 +37,7 @@ VARIANTS = [
     dict(id="c15-twin-repaired", prop="C15", expect="silent", edits=[dict(file=F, old=FIXED_INT[0], new=FIXED_INT[1]), dict(file=F, old=FIXED_FLOAT[0], new=FIXED_FLOAT[1])]),
     v("c15-twin-sq", "            Sxx += x * x\n            nx += 1\n\n        if y_ok:", "            Sxx += x**2\n            nx += 1\n\n        if y_ok:", expect="silent"),
 ]
+
+VARIANTS += [
+    v("c15-f32-products", "        x = float64(xx[i])\n        y = float64(yy[i])\n", "        x = xx[i]\n        y = yy[i]\n", names="R-ACC", note="seeded C15a: float32 squares"),
+]
